@@ -659,7 +659,7 @@ func (g *Generator) buildScalarAdditionalProperties(
 			A: g.convertScalarField(valueField),
 		}
 	}
-	return &base.DynamicValue[*base.SchemaProxy, bool]{B: true}
+	return &base.DynamicValue[*base.SchemaProxy, bool]{N: 1, B: true}
 }
 
 // processService converts a protobuf service to OpenAPI paths.
